@@ -91,6 +91,15 @@ var srcTargets = []srcTarget{
 	{Group: "DecodeV1", Name: "parseHeaders", Only: "V1"},
 	{Group: "DecodeV1", Name: "parseClaims", Only: "V1"},
 	{Group: "DecodeV1", Name: "Decode", Only: "V1"},
+	{Group: "Encode", Recv: "ClaimsData", Name: "doEncode", Only: "V2"},
+	{Group: "Encode", Recv: "ClaimsData", Name: "encode", Only: "V2"},
+	{Group: "Encode", Recv: "OperatorClaims", Name: "Encode", Only: "V2"},
+	{Group: "Encode", Recv: "AccountClaims", Name: "Encode", Only: "V2"},
+	{Group: "Encode", Recv: "UserClaims", Name: "Encode", Only: "V2"},
+	{Group: "Encode", Recv: "ActivationClaims", Name: "Encode", Only: "V2"},
+	{Group: "Encode", Recv: "AuthorizationRequestClaims", Name: "Encode", Only: "V2"},
+	{Group: "Encode", Recv: "AuthorizationResponseClaims", Name: "Encode", Only: "V2"},
+	{Group: "Encode", Recv: "GenericClaims", Name: "Encode", Only: "V2"},
 	{Group: "DidSign", Recv: "StringList", Name: "Contains", Only: "V2"},
 	{Group: "DidSign", Recv: "OperatorClaims", Name: "DidSign", Only: "V2"},
 	{Group: "DidSign", Recv: "AccountClaims", Name: "DidSign", Only: "V2"},
@@ -100,6 +109,10 @@ type untr struct{ msg string }
 
 // translated functions that take the opaque value type and its nil as their first two parameters
 var usesVal = map[types.Object]bool{}
+
+// translated functions whose bodies have effects on abstract values: they return the log of them first, and their
+// observations that are calls are functions of the log
+var effectful = map[types.Object]bool{}
 
 func valArgs(o types.Object) string {
 	if usesVal[o] {
@@ -138,6 +151,9 @@ type tr struct {
 	returnsVr  map[types.Object]bool   // translated functions that take and return the issue list
 	myAbs      []absParam              // this function's observations of its own receiver
 	paramRoot  map[string]int          // abstract parameters: name -> position
+	effects    bool                    // the body assigns fields of abstract values or calls their methods for effect
+	logVar     *types.Var              // ... then this pseudo-variable holds the log of those effects
+	setFields  map[string]bool         // observation names of fields assigned so far
 	foreignObs bool                    // it also observes an abstract parameter
 }
 
@@ -179,6 +195,16 @@ func (t *tr) coqType(n ast.Node, ty types.Type) string {
 	}
 	if isVR(ty) {
 		return "(list go_issue)"
+	}
+	if named, ok := ty.(*types.Named); ok && named.Obj().Name() == "go_log_t" {
+		return "(list go_event)"
+	}
+	if tup, ok := ty.(*types.Tuple); ok && tup.Len() >= 2 {
+		var ts []string
+		for i := 0; i < tup.Len(); i++ {
+			ts = append(ts, t.coqType(n, tup.At(i).Type()))
+		}
+		return "(" + strings.Join(ts, " * ") + ")"
 	}
 	if named, ok := ty.(*types.Named); ok && named.Obj().Pkg() != nil && named.Obj().Pkg().Path() == "time" && named.Obj().Name() == "Time" {
 		return "Z" // a time.Time is used through Unix() only: its seconds
@@ -403,6 +429,25 @@ func (t *tr) expr(e ast.Expr) string {
 				}
 			}
 		}
+		if x.Op == token.EQL || x.Op == token.NEQ {
+			pa, oka := t.absPath(x.X)
+			pb, okb := t.absPath(x.Y)
+			isRef := func(e ast.Expr) bool {
+				switch t.info.TypeOf(e).Underlying().(type) {
+				case *types.Pointer, *types.Interface:
+					return true
+				}
+				return false
+			}
+			if oka && okb && isRef(x.X) && isRef(x.Y) && !strings.HasPrefix(pa, "\x00") && !strings.HasPrefix(pb, "\x00") {
+				// two abstract values compared: whether they are the same is one more observation
+				r := t.observeCall("go_same__"+pa+"__"+pb, "bool")
+				if x.Op == token.NEQ {
+					return "(negb " + r + ")"
+				}
+				return r
+			}
+		}
 		a, b := t.expr(x.X), t.expr(x.Y)
 		switch x.Op {
 		case token.LAND:
@@ -517,6 +562,18 @@ func (t *tr) absPath(e ast.Expr) (string, bool) {
 	case *ast.SelectorExpr:
 		if p, ok := t.absPath(x.X); ok {
 			if f, isVar := t.info.Uses[x.Sel].(*types.Var); isVar && f.IsField() {
+				// a field promoted from an embedded struct is named through it (one name per field)
+				if sel, ok := t.info.Selections[x]; ok && len(sel.Index()) > 1 {
+					ty := derefType(sel.Recv())
+					for _, i := range sel.Index()[:len(sel.Index())-1] {
+						st, ok := ty.Underlying().(*types.Struct)
+						if !ok {
+							break
+						}
+						p += "_" + st.Field(i).Name()
+						ty = derefType(st.Field(i).Type())
+					}
+				}
 				return p + "_" + x.Sel.Name, true
 			}
 		}
@@ -535,7 +592,19 @@ func (t *tr) absPath(e ast.Expr) (string, bool) {
 }
 
 // observe registers an observation parameter
+// observeCall: an observation that is a call (a method of an abstract value, an untranslated function): when the body
+// has effects on abstract values, what it answers may depend on the effects so far
+func (t *tr) observeCall(name, ty string) string {
+	if t.effects {
+		return "(" + t.observe(name, "((list go_event) -> "+ty+")") + " " + t.names[t.logVar] + ")"
+	}
+	return t.observe(name, ty)
+}
+
 func (t *tr) observe(name, ty string) string {
+	if t.setFields[name] {
+		panic(untr{"read of " + name + " after it was assigned"})
+	}
 	if strings.HasPrefix(name, "\x00") {
 		parts := strings.SplitN(name[1:], "\x00", 2)
 		return "(" + t.observe(parts[1], "(go_val -> "+ty+")") + " " + parts[0] + ")"
@@ -600,9 +669,17 @@ func (t *tr) knownArgs(x *ast.CallExpr, o types.Object, recvPrefix string) []str
 			}
 			prefix, ok := t.absPath(x.Args[ap.root])
 			if !ok {
+				if v, ok := t.litObs(x.Args[ap.root], ap.rel); ok {
+					as = append(as, v)
+					continue
+				}
 				t.fail(x, "argument %d is not an abstract value", ap.root)
 			}
 			as = append(as, t.observe(prefix+ap.rel, ap.ty))
+		}
+		if effectful[o] && t.logVar != nil && strings.HasPrefix(ap.ty, "((list go_event) -> ") {
+			// the callee's log starts where ours stands
+			as[len(as)-1] = "(fun go_l => " + as[len(as)-1] + " (" + t.names[t.logVar] + " ++ go_l)%list)"
 		}
 	}
 	sig := o.Type().(*types.Signature)
@@ -613,6 +690,58 @@ func (t *tr) knownArgs(x *ast.CallExpr, o types.Object, recvPrefix string) []str
 		as = append(as, t.expr(a))
 	}
 	return as
+}
+
+// litObs: an observation of an argument that is the address of a struct literal (&Header{a, b}): it is not nil and
+// its fields are what the literal says
+func (t *tr) litObs(arg ast.Expr, rel string) (string, bool) {
+	u, ok := arg.(*ast.UnaryExpr)
+	if !ok || u.Op != token.AND {
+		return "", false
+	}
+	lit, ok := u.X.(*ast.CompositeLit)
+	if !ok {
+		return "", false
+	}
+	st, ok := t.info.TypeOf(lit).Underlying().(*types.Struct)
+	if !ok {
+		return "", false
+	}
+	if rel == "_isnil" {
+		return "false", true
+	}
+	for i := 0; i < st.NumFields(); i++ {
+		if rel != "_"+st.Field(i).Name() {
+			continue
+		}
+		for j, el := range lit.Elts {
+			if kv, ok := el.(*ast.KeyValueExpr); ok {
+				if id, ok := kv.Key.(*ast.Ident); ok && id.Name == st.Field(i).Name() {
+					return t.expr(kv.Value), true
+				}
+				continue
+			}
+			if j == i {
+				return t.expr(el), true
+			}
+		}
+		return t.zero(lit, st.Field(i).Type()), true
+	}
+	return "", false
+}
+
+// calleeOf: the function or method a call names, if it is one of this package
+func (t *tr) calleeOf(c *ast.CallExpr) types.Object {
+	switch f := c.Fun.(type) {
+	case *ast.Ident:
+		return t.info.Uses[f]
+	case *ast.SelectorExpr:
+		if sel, ok := t.info.Selections[f]; ok {
+			return sel.Obj()
+		}
+		return t.info.Uses[f.Sel]
+	}
+	return nil
 }
 
 // isAbstractParam: a parameter known through observations only (as translateFunc classifies it)
@@ -691,9 +820,15 @@ func (t *tr) call(x *ast.CallExpr) string {
 			}
 			// an untranslated function of this package: an unknown function of its arguments
 			if sig, ok := o.Type().(*types.Signature); ok && !sig.Variadic() && sig.Results().Len() >= 1 {
-				var tys, rtys []string
+				var tys, rtys, as []string
+				suffix := ""
 				for _, a := range x.Args {
+					if prefix, isAbs := t.absPath(a); isAbs && !strings.HasPrefix(prefix, "\x00") {
+						suffix += "__" + prefix // applied to an abstract parameter: an observation of it
+						continue
+					}
 					tys = append(tys, t.coqType(a, t.info.TypeOf(a)))
+					as = append(as, t.expr(a))
 				}
 				for i := 0; i < sig.Results().Len(); i++ {
 					rtys = append(rtys, t.coqType(x, sig.Results().At(i).Type()))
@@ -702,8 +837,11 @@ func (t *tr) call(x *ast.CallExpr) string {
 				if len(rtys) > 1 {
 					rty = "(" + strings.Join(rtys, " * ") + ")"
 				}
-				name := t.observe("go_"+f.Name, "("+strings.Join(append(tys, rty), " -> ")+")")
-				return "(" + name + " " + strings.Join(args(), " ") + ")"
+				name := t.observeCall("go_"+f.Name+suffix, "("+strings.Join(append(tys, rty), " -> ")+")")
+				if len(as) == 0 {
+					return name
+				}
+				return "(" + name + " " + strings.Join(as, " ") + ")"
 			}
 		}
 		t.fail(x, "call of %s", f.Name)
@@ -743,6 +881,22 @@ func (t *tr) call(x *ast.CallExpr) string {
 						return t.expr(a[0]) // a time is its Unix seconds
 					}
 					t.fail(x, "time.Unix with nanoseconds")
+				case "fmt.Sprintf":
+					// a format of %s verbs and plain text over strings: concatenation
+					if tv := t.info.Types[a[0]]; tv.Value != nil && tv.Value.Kind() == constant.String {
+						parts := strings.Split(constant.StringVal(tv.Value), "%s")
+						if len(parts) == len(a) && !strings.Contains(strings.Join(parts, ""), "%") {
+							out := coqString(a[0], t, parts[0])
+							for i := 1; i < len(parts); i++ {
+								if !t.isStr(a[i]) {
+									t.fail(x, "Sprintf of a non-string")
+								}
+								out += " ++ " + t.expr(a[i]) + " ++ " + coqString(a[0], t, parts[i])
+							}
+							return "(" + out + ")%string"
+						}
+					}
+					t.fail(x, "Sprintf with a format other than %%s verbs")
 				case "fmt.Errorf", "errors.New":
 					// an error value: only that it is not nil, and its format text, are kept
 					tv := t.info.Types[a[0]]
@@ -779,7 +933,7 @@ func (t *tr) call(x *ast.CallExpr) string {
 			return t.expr(f.X)
 		}
 		if name, ok := t.absPath(x); ok {
-			return t.observe(name, t.coqType(x, t.info.TypeOf(x)))
+			return t.observeCall(name, t.coqType(x, t.info.TypeOf(x)))
 		}
 		// method of a translated receiver type
 		if sel, ok := t.info.Selections[f]; ok {
@@ -797,12 +951,22 @@ func (t *tr) call(x *ast.CallExpr) string {
 			}
 			// an untranslated method of an abstract value, with arguments: an unknown function of the arguments
 			if prefix, isAbs := t.absPath(f.X); isAbs {
-				var tys []string
+				var tys, as []string
+				suffix := ""
 				for _, a := range x.Args {
+					if ap, isAbsArg := t.absPath(a); isAbsArg && !strings.HasPrefix(ap, "\x00") {
+						suffix += "__" + ap // applied to an abstract value: part of the observation's name
+						continue
+					}
 					tys = append(tys, t.coqType(a, t.info.TypeOf(a)))
+					as = append(as, t.expr(a))
 				}
 				ty := "(" + strings.Join(append(tys, t.coqType(x, t.info.TypeOf(x))), " -> ") + ")"
-				return "(" + t.observe(prefix+"_"+f.Sel.Name, ty) + " " + strings.Join(args(), " ") + ")"
+				name := t.observeCall(prefix+"_"+f.Sel.Name+suffix, ty)
+				if len(as) == 0 {
+					return name
+				}
+				return "(" + name + " " + strings.Join(as, " ") + ")"
 			}
 		}
 		t.fail(x, "call of %s", exprText(f))
@@ -878,10 +1042,20 @@ func (t *tr) assigned(n ast.Node) []*types.Var {
 		seen[v] = true
 		out = append(out, v)
 	}
+	addLog := func() {
+		if t.logVar != nil && !seen[t.logVar] {
+			seen[t.logVar] = true
+			out = append(out, t.logVar)
+		}
+	}
 	ast.Inspect(n, func(m ast.Node) bool {
 		switch s := m.(type) {
 		case *ast.AssignStmt:
 			for _, l := range s.Lhs {
+				if _, isSel := l.(*ast.SelectorExpr); isSel && t.isEffectTarget(l) {
+					addLog()
+					continue
+				}
 				add(l)
 			}
 		case *ast.IncDecStmt:
@@ -904,6 +1078,9 @@ func (t *tr) assigned(n ast.Node) []*types.Var {
 					if id, ok := a.(*ast.Ident); ok && t.vr != nil && t.info.Uses[id] == t.vr {
 						add(a) // f(..., vr)
 					}
+				}
+				if t.isEffectCall(c) {
+					addLog()
 				}
 			}
 		case *ast.RangeStmt:
@@ -1026,6 +1203,19 @@ func (t *tr) block0(stmts []ast.Stmt, c sctx, ind string) string {
 	case *ast.ReturnStmt:
 		if len(x.Results) == 0 {
 			return c.ret("tt")
+		}
+		if len(x.Results) == 1 && len(t.resTys) > 1 {
+			// return f(...) where f yields all the results
+			if call, ok := x.Results[0].(*ast.CallExpr); ok {
+				if tup, ok := t.info.TypeOf(call).(*types.Tuple); ok && tup.Len() == len(t.resTys) {
+					if o := t.calleeOf(call); o != nil && effectful[o] && t.known[o] != "" {
+						// the callee's effects follow ours
+						lg := t.names[t.logVar]
+						return "let '(go_l, go_r) := " + t.expr(call) + " in" + nl + "let " + lg + " := (" + lg + " ++ go_l)%list in" + nl + c.ret("go_r")
+					}
+					return c.ret(t.expr(call))
+				}
+			}
 		}
 		if len(x.Results) != len(t.resTys) {
 			t.fail(x, "return of %d values", len(x.Results))
@@ -1158,6 +1348,12 @@ func (t *tr) block0(stmts []ast.Stmt, c sctx, ind string) string {
 				return "let " + m + " := (go_mset " + m + " " + t.expr(ie.Index) + " " + t.expr(x.Rhs[0]) + ") in" + nl + t.block(rest, c, ind)
 			}
 		}
+		// p.F = e for an abstract receiver or parameter p: an effect, logged
+		if len(x.Lhs) == 1 && len(x.Rhs) == 1 && x.Tok == token.ASSIGN && t.logVar != nil && t.isEffectTarget(x.Lhs[0]) {
+			name, _ := t.absPath(x.Lhs[0])
+			v := t.expr(x.Rhs[0])
+			return t.logSet(x, name, t.coqType(x.Lhs[0], t.info.TypeOf(x.Lhs[0])), v) + nl + t.block(rest, c, ind)
+		}
 		// err := json.Unmarshal(data, &v): v is what the text decodes to (an unknown function of the text), err whether it failed
 		if len(x.Lhs) == 1 && len(x.Rhs) == 1 && (x.Tok == token.DEFINE || x.Tok == token.ASSIGN) {
 			if call, ok := x.Rhs[0].(*ast.CallExpr); ok && len(call.Args) == 2 {
@@ -1181,11 +1377,18 @@ func (t *tr) block0(stmts []ast.Stmt, c sctx, ind string) string {
 		if len(x.Lhs) > 1 && len(x.Rhs) == 1 && (x.Tok == token.DEFINE || x.Tok == token.ASSIGN) {
 			if call, ok := x.Rhs[0].(*ast.CallExpr); ok {
 				val := t.call(call)
-				var ns []string
-				for _, l := range x.Lhs {
+				var ns, sets []string
+				for i, l := range x.Lhs {
+					if t.logVar != nil && t.isEffectTarget(l) {
+						tmp := fmt.Sprintf("go_tmp%d", i)
+						ns = append(ns, tmp)
+						name, _ := t.absPath(l)
+						sets = append(sets, t.logSet(x, name, t.coqType(l, t.info.TypeOf(l)), tmp)+nl)
+						continue
+					}
 					ns = append(ns, t.lhsName(l, x.Tok == token.DEFINE))
 				}
-				return "let '(" + strings.Join(ns, ", ") + ") := " + val + " in" + nl + t.block(rest, c, ind)
+				return "let '(" + strings.Join(ns, ", ") + ") := " + val + " in" + nl + strings.Join(sets, "") + t.block(rest, c, ind)
 			}
 		}
 		if len(x.Lhs) != len(x.Rhs) {
@@ -1361,6 +1564,25 @@ func (t *tr) block0(stmts []ast.Stmt, c sctx, ind string) string {
 				}
 			}
 		}
+		if call, ok := x.X.(*ast.CallExpr); ok && t.logVar != nil && t.isEffectCall(call) {
+			f := call.Fun.(*ast.SelectorExpr)
+			name, _ := t.absPath(f.X)
+			var as []string
+			for _, a := range call.Args {
+				as = append(as, t.expr(a))
+			}
+			if len(as) > 0 {
+				t.fail(s, "effectful call with arguments")
+			}
+			lg := t.names[t.logVar]
+			return "let " + lg + " := (" + lg + " ++ [GoDo \"" + name + "." + f.Sel.Name + "\"])%list in" + nl + t.block(rest, c, ind)
+		}
+		if call, ok := x.X.(*ast.CallExpr); ok && t.logVar != nil {
+			if name, ok := t.pkgEffectCall(call); ok {
+				lg := t.names[t.logVar]
+				return "let " + lg + " := (" + lg + " ++ [GoDo \"" + name + "\"])%list in" + nl + t.block(rest, c, ind)
+			}
+		}
 		t.fail(s, "expression statement")
 	case *ast.SwitchStmt:
 		// switch [init;] [tag] { case a, b: ...; default: ... } without fallthrough or break: an if-chain
@@ -1453,6 +1675,77 @@ func (t *tr) block0(stmts []ast.Stmt, c sctx, ind string) string {
 	return ""
 }
 
+// isEffectTarget: a field of an abstract receiver or parameter (the left-hand side of an assignment)
+func (t *tr) isEffectTarget(e ast.Expr) bool {
+	sel, ok := e.(*ast.SelectorExpr)
+	if !ok {
+		return false
+	}
+	p, ok := t.absPath(sel)
+	return ok && !strings.HasPrefix(p, "\x00")
+}
+
+// isEffectCall: a method of an abstract receiver or parameter called as a statement (for its effect)
+func (t *tr) isEffectCall(c *ast.CallExpr) bool {
+	f, ok := c.Fun.(*ast.SelectorExpr)
+	if !ok {
+		return false
+	}
+	if id, ok := f.X.(*ast.Ident); ok && t.vr != nil && t.info.Uses[id] == t.vr {
+		return false
+	}
+	if sel, ok := t.info.Selections[f]; ok && (t.known[sel.Obj()] != "" || t.mutates[sel.Obj()]) {
+		return false
+	}
+	p, ok := t.absPath(f.X)
+	if !ok || strings.HasPrefix(p, "\x00") {
+		return false
+	}
+	for _, a := range c.Args {
+		if id, ok := a.(*ast.Ident); ok && t.vr != nil && t.info.Uses[id] == t.vr {
+			return false
+		}
+	}
+	return true
+}
+
+// pkgEffectCall: a function of an imported package called as a statement with abstract values only as arguments
+// (sort.Sort(a.Exports)): an effect on them, recorded by name
+func (t *tr) pkgEffectCall(c *ast.CallExpr) (string, bool) {
+	f, ok := c.Fun.(*ast.SelectorExpr)
+	if !ok || len(c.Args) == 0 {
+		return "", false
+	}
+	id, ok := f.X.(*ast.Ident)
+	if !ok {
+		return "", false
+	}
+	pn, ok := t.info.Uses[id].(*types.PkgName)
+	if !ok {
+		return "", false
+	}
+	name := pn.Imported().Name() + "." + f.Sel.Name
+	for _, a := range c.Args {
+		p, ok := t.absPath(a)
+		if !ok || strings.HasPrefix(p, "\x00") {
+			return "", false
+		}
+		name += " " + p
+	}
+	return name, true
+}
+
+// logSet: the log entry for an assignment of value v (of Coq type ty) to the field named name
+func (t *tr) logSet(n ast.Node, name, ty, v string) string {
+	ctor := map[string]string{"string": "GoSetS", "Z": "GoSetZ", "bool": "GoSetB"}[ty]
+	if ctor == "" {
+		t.fail(n, "assignment of a %s to a field of an abstract value", ty)
+	}
+	lg := t.names[t.logVar]
+	t.setFields[name] = true
+	return "let " + lg + " := (" + lg + " ++ [" + ctor + " \"" + name + "\" " + v + "])%list in"
+}
+
 // loopState: the outer variables a range body assigns (the loop's own key / value variables are per iteration)
 func (t *tr) loopState(x *ast.RangeStmt) []*types.Var {
 	own := map[types.Object]bool{}
@@ -1528,7 +1821,7 @@ func (t *tr) mapRange(x *ast.RangeStmt, rest []ast.Stmt, c sctx, ind string) str
 // translateFunc returns the Coq definition text for one function declaration
 func translateFunc(pkg *packages.Package, fd *ast.FuncDecl, coqName string, known map[types.Object]string, mutates map[types.Object]bool, absParams map[types.Object][]absParam, returnsVr map[types.Object]bool) (text string, mutated bool, abs []absParam, vr bool) {
 	t := &tr{info: pkg.TypesInfo, fset: pkg.Fset, names: map[types.Object]string{}, used: map[string]bool{},
-		fieldTy: map[string]string{}, known: known, mutates: mutates, roots: map[types.Object]string{}, absParams: absParams, returnsVr: returnsVr, paramRoot: map[string]int{}}
+		fieldTy: map[string]string{}, known: known, mutates: mutates, roots: map[types.Object]string{}, absParams: absParams, returnsVr: returnsVr, paramRoot: map[string]int{}, setFields: map[string]bool{}}
 	defer func() {
 		if r := recover(); r != nil {
 			u, ok := r.(untr)
@@ -1577,6 +1870,41 @@ func translateFunc(pkg *packages.Package, fd *ast.FuncDecl, coqName string, know
 			params = append(params, "("+t.bind(o)+" : "+t.coqType(f, o.Type())+")") // (a variadic parameter already has its slice type)
 		}
 	}
+	// does the body assign fields of, or call for effect methods of, abstract values?
+	ast.Inspect(fd.Body, func(m ast.Node) bool {
+		switch st := m.(type) {
+		case *ast.AssignStmt:
+			for _, l := range st.Lhs {
+				if t.isEffectTarget(l) {
+					t.effects = true
+				}
+			}
+		case *ast.ExprStmt:
+			if c, ok := st.X.(*ast.CallExpr); ok && t.isEffectCall(c) {
+				t.effects = true
+			}
+			if c, ok := st.X.(*ast.CallExpr); ok {
+				if _, ok := t.pkgEffectCall(c); ok {
+					t.effects = true
+				}
+			}
+		}
+		return true
+	})
+	ast.Inspect(fd.Body, func(m ast.Node) bool {
+		if c, ok := m.(*ast.CallExpr); ok {
+			if o := t.calleeOf(c); o != nil && effectful[o] {
+				t.effects = true
+			}
+		}
+		return true
+	})
+	if t.effects {
+		logT := types.NewNamed(types.NewTypeName(token.NoPos, nil, "go_log_t", nil), types.NewSlice(types.Typ[types.String]), nil)
+		t.logVar = types.NewVar(token.NoPos, nil, "go_log", logT)
+		t.names[t.logVar] = "go_log"
+		t.used["go_log"] = true
+	}
 	t.resTy = "unit"
 	if fd.Type.Results != nil {
 		for _, r := range fd.Type.Results.List {
@@ -1622,7 +1950,22 @@ func translateFunc(pkg *packages.Package, fd *ast.FuncDecl, coqName string, know
 		t.wrap = func(v string) string { return vrn }
 		fall = vrn
 	}
-	body := t.block(fd.Body.List, sctx{fall: fall, ret: func(v string) string { return t.wrap(v) }, emit: func(v string) string { return v }}, "  ")
+	pre := ""
+	if t.effects {
+		if t.mut || t.vr != nil {
+			t.fail(fd, "effects on abstract values together with an updated receiver or validation results")
+		}
+		if t.resTy == "unit" {
+			t.retTy = "(list go_event)"
+			t.wrap = func(v string) string { return "go_log" }
+			fall = "go_log"
+		} else {
+			t.retTy = "((list go_event) * " + t.resTy + ")"
+			t.wrap = func(v string) string { return "(go_log, " + v + ")" }
+		}
+		pre = "let go_log := (@nil go_event) in\n  "
+	}
+	body := pre + t.block(fd.Body.List, sctx{fall: fall, ret: func(v string) string { return t.wrap(v) }, emit: func(v string) string { return v }}, "  ")
 	// the observations the body makes of abstract values become parameters, in alphabetical order
 	sort.Strings(t.fieldOrder)
 	var fp []string
@@ -1664,6 +2007,9 @@ func translateFunc(pkg *packages.Package, fd *ast.FuncDecl, coqName string, know
 		t.myAbs = []absParam{}
 	}
 	text = fmt.Sprintf("Definition %s %s : %s :=\n  %s.\n", coqName, strings.Join(params, " "), t.retTy, body)
+	if t.effects {
+		effectful[pkg.TypesInfo.Defs[fd.Name]] = true
+	}
 	if strings.Contains(text, "go_val") || strings.Contains(text, "go_nil") {
 		text = fmt.Sprintf("Definition %s (go_val : Type) (go_nil : go_val) %s : %s :=\n  %s.\n", coqName, strings.Join(params, " "), t.retTy, body)
 		usesVal[pkg.TypesInfo.Defs[fd.Name]] = true
